@@ -471,8 +471,7 @@ class Builtins(OpsMixin, LoopsMixin):
             if c is not None:
                 yield from ex.apply_contract(p, c, args, kwargs, node)
                 return
-            base = z3.Int("alloc0")
-            ref = base + p.alloc
+            ref = p.frontier
             p.alloc += 1
             obj = VObj(ref, name)
             kind, ci2, fi = ex.repo.find_member(name, "__init__")
